@@ -9,6 +9,13 @@ P = {
                   'invariant over all histories (coin-origin: totalSupply <= escrow with escrow - totalSupply = tokens burned by '
                   'holders; token-origin: coin supply <= balanceOf(module)); hook exactness for one and for several Transfer-to-module '
                   'logs in one receipt (the contract receives exactly the sum of the amounts it transferred); '
+                  'multi-contract receipts (world = per token contract its pair state; every log carries its emitting contract and the hook '
+                  'looks the pair up by that contract): a log of an unregistered or disabled contract changes no pair; a log changes only its '
+                  'own pair, by exactly its amount; over ALL log sequences (induction) the pair of contract p ends where p\'s own hook ends on '
+                  'the sub-sequence of p\'s logs, so erasing the ignored logs gives the same state and every coin-origin pair stays backed '
+                  'whatever any contract logs; a whole transaction of transfer / transferFrom calls on any mix of contracts (unregistered ones: '
+                  'ARBITRARY token behaviour) keeps every registered pair of either origin backed; refutation witness for a pair lookup that is '
+                  'memoised across logs and not reset on a registry miss ([A; B; B]); '
                   'ANY token: every message conversion and the wrapper '
                   'is exact on the bank side and witnessed by the balance the token reports, or fails without effect; every coin '
                   'creation is witnessed in the semantics without log-driven mint; refutation witnesses for the two findings. '
@@ -16,7 +23,8 @@ P = {
                   'every run and the property itself is evaluated on the real observations',
     'level_note': 'partial: the theorems are about the model; the EVM interpreter, the compiled token bytecode, bank keeper and '
                   'baseapp/IBC-core atomicity are outside it (see trusted base); one pair per history (pairs are independent by '
-                  'construction: distinct denomination, distinct contract; two bystander pairs are observed for frame violations)',
+                  'construction: distinct denomination, distinct contract); the multi-contract model (6 contracts) is evaluated on every script '
+                  'transaction that does not call a non-ledger token of the pair under test; five other contracts are observed for frame violations',
     'technique': 'Coq proof over a state-passing token-oracle model (invariant by induction over histories; case analysis for '
                  'any-token exactness) + differential correspondence against the real code with honest, compiled-malicious '
                  'and hand-assembled tokens',
@@ -24,7 +32,7 @@ P = {
         {'name': 'erc20', 'n': {'quick': 450, 'thorough': 12000}, 'shrink_field': 'ops', 'batch': 6000},
     ],
     'coq_header': 'From HV Require Import Erc20.PegModel.\nFrom Coq Require Import ZArith NArith List.\nImport ListNotations.',
-    'lists': {'cases': {'type': 'N * list (op * obs)', 'check': 'mismatches', 'shard': 60}},
+    'lists': {'cases': {'type': 'N * list (op * obs) * list mcase', 'check': 'mismatches', 'shard': 60}},
     'search': {'rounds': 3, 'n': 2500},
     'rule': 'a case is one token pair (coin-origin with the module\'s own ERC20MinterBurnerDecimals deployed by RegisterCoin; or '
             'token-origin with: the compiled honest token, ERC20DirectBalanceManipulation, ERC20MaliciousDelayed, a hand-assembled '
@@ -33,13 +41,25 @@ P = {
             '/ topic-less log / no return data / revert, and which can self-destruct) plus a history of 8-20 operations: fund, '
             'one signed transaction to a script contract that holds tokens and CALLs token.transfer(to, x) several times (same pair '
             'twice or more, other recipients, tolerated reverting calls, calls to the tokens of the two bystander pairs: two '
-            'registered pairs in one receipt), '
+            'registered pairs in one receipt), or a scripted SEQUENCE of token.transfer(to, x) / token.transferFrom(holder, to, x) calls '
+            '(holders have given the contract an infinite allowance) on SEVERAL token contracts of different registration status in one '
+            'transaction: the pair\'s own token, a registered enabled coin-origin and a token-origin pair, a registered DISABLED coin-origin '
+            'pair, an UNREGISTERED honest ERC20 (the compiled ERC20MinterBurnerDecimals, has burn), an UNREGISTERED hand-assembled token that '
+            'only emits Transfer(from, to, x) logs; palette of 2-3 contracts per transaction, 2-6 calls, the same contract often again '
+            '(adjacent and non-adjacent: A B B, A B A B, B B A ...), to = module address (78%) / another actor, amounts 0 / 1..70 / more than '
+            'held; for every such transaction the world before, the calls, the RECEIPT\'s logs (emitting contract, registered?, from, to, '
+            'amount) and the world after are printed into the Coq case and the multi-contract model is evaluated on them, '
             'MsgConvertCoin, MsgConvertERC20 (message router), signed Ethereum transactions transfer/burn/mint/mode/kill/unknown '
             'through EvmKeeper.ApplyTransaction (PostTxProcessing hook), bank MsgSend (wrapper), MsgTransfer without channel, '
             'ToggleConversion, SetParams, keeper OnRecvPacket / OnAcknowledgementPacket / OnTimeoutPacket after the ICS-20 credit, '
             'keeper-level SendCoins; amounts 0 / 1 / balance / balance+1 / 2^128, 2^255, 2^256-1 / random; after every step: '
             'totalSupply and balanceOf of 8 actors (the script contract included) through real EVM calls, coin supply, escrow, bank balances, registry, params, '
-            'two bystander pairs (exact expected effect when the transaction called their tokens, frame otherwise) and the base denomination; non-trivial = at least one conversion (message, hook, wrapper or IBC) '
+            'five other token contracts (registry flags, coin supply, totalSupply, coin and token balances of the 8 actors in each one\'s '
+            '(would-be) denomination: exact expected effect when the transaction called them: a conversion of exactly x for `from` when the '
+            'contract is a registered enabled pair and the transfer goes to the module address, a plain token transfer otherwise, so a '
+            'transfer of an unregistered or disabled contract\'s token to the module address changes no coin, escrow or supply of any '
+            'denomination and every actor\'s coins move only by the conversions of registered pairs; frame otherwise; a transaction without a '
+            'call on the pair\'s own token leaves the pair untouched whatever its token is) and the base denomination; non-trivial = at least one conversion (message, hook, wrapper or IBC) '
             'succeeded; distinct = distinct (kind, op list)',
     'trusted_base': [
         'Coq 8.16.1 kernel incl. vm_compute (no native_compute); std++ 1.8.0 gmap',
@@ -51,7 +71,8 @@ P = {
         '(SendCoins, MintCoins, BurnCoins, blocked addresses), baseapp message atomicity and IBC-core acknowledgement '
         'atomicity (reproduced by the harness with CacheContext), gas (price 0), ICS-20 escrow/mint below the middleware '
         '(played by the harness), MsgTransfer beyond its inner ConvertERC20 (no channel in the harness: always fails, checked to '
-        'leave no effect), vesting locks (no vesting accounts), send-enabled flags (default), transferFrom/approve, ERC20 precompiles '
+        'leave no effect), vesting locks (no vesting accounts), send-enabled flags (default), approve and finite allowances (transferFrom is '
+        'modelled under the infinite allowance the harness sets up: it then equals a transfer of `from`; compared on every run: logs and balances), ERC20 precompiles '
         '(RegisterERC20Extensions is never called in the pinned tree)',
     ],
     'assumptions': [
